@@ -71,6 +71,22 @@ const X2_HEX: &str = "3d4017c3e843895a92b70aa74d1b7ebc9c982ccf2ec4968cc0cd55f12a
 fn unhex(s: &str) -> Vec<u8> {
   (0..s.len() / 2).map(|i| u8::from_str_radix(&s[2 * i..2 * i + 2], 16).unwrap()).collect()
 }
+fn crate_b64_dec(t: &str) -> Vec<u8> {
+  const T: &[u8] = b"ABCDEFGHIJKLMNOPQRSTUVWXYZabcdefghijklmnopqrstuvwxyz0123456789-_";
+  let vals: Vec<u32> = t.bytes().filter_map(|c| T.iter().position(|x| *x == c).map(|p| p as u32)).collect();
+  let mut out = vec![];
+  for ch in vals.chunks(4) {
+    let n = ch.iter().enumerate().fold(0u32, |a, (i, v)| a | v << (18 - 6 * i as u32));
+    out.push((n >> 16) as u8);
+    if ch.len() > 2 {
+      out.push((n >> 8) as u8);
+    }
+    if ch.len() > 3 {
+      out.push(n as u8);
+    }
+  }
+  out
+}
 fn pair(v: u32) -> (String, String) {
   if v == 1 {
     (D1.to_string(), X1.to_string())
@@ -79,9 +95,16 @@ fn pair(v: u32) -> (String, String) {
   }
 }
 
-fn jwk_json(fam: &str, private: bool, alg: &str, dok: bool, v: u32) -> String {
+/// dok: 1 = `d` is the 32-byte secret; 0 = three bytes; 2 = 64 bytes (secret followed by the public key); 3 = 33 bytes
+fn jwk_json(fam: &str, private: bool, alg: &str, dok: u32, v: u32) -> String {
   let (d, x) = pair(v);
-  let d = if dok { d } else { "AAAA".to_string() };
+  let raw = |t: &str| crate_b64_dec(t);
+  let d = match dok {
+    1 => d,
+    2 => b64(&[raw(&d), raw(&x)].concat()),
+    3 => b64(&[raw(&d), vec![7u8]].concat()),
+    _ => "AAAA".to_string(),
+  };
   let mut members: Vec<String> = match fam {
     "ed" => vec!["\"kty\":\"OKP\"".into(), "\"crv\":\"Ed25519\"".into(), format!("\"x\":\"{}\"", x)],
     "e448" => vec!["\"kty\":\"OKP\"".into(), "\"crv\":\"Ed448\"".into(), format!("\"x\":\"{}\"", x)],
@@ -190,7 +213,7 @@ pub fn run(args: &[&str], dir: &std::path::Path) -> String {
       }
       ["i", fam, pr, alg, dok, v] => (|| {
         let v: u32 = v.parse().ok()?;
-        let j = Jwk::from_json(&jwk_json(fam, *pr == "1", alg, *dok == "1", v)).ok()?;
+        let j = Jwk::from_json(&jwk_json(fam, *pr == "1", alg, dok.parse().ok()?, v)).ok()?;
         Some(match rt.block_on(store.insert(j.clone())) {
           Ok(id) => {
             let n = issued.len() as u32 + 1;
@@ -198,7 +221,8 @@ pub fn run(args: &[&str], dir: &std::path::Path) -> String {
             if pubj.alg().is_none() {
               pubj.set_alg("EdDSA");
             }
-            issued.push((id, pubj, if *dok == "1" { 100 + v } else { 0 }));
+            // the key pair a stored key verifies under is that of its PUBLIC part, whatever `d` holds
+            issued.push((id, pubj, 100 + v));
             format!("ok:{}", n)
           }
           Err(e) => { let _ = kerr(e.kind(), ""); "err".to_string() },
@@ -209,9 +233,9 @@ pub fn run(args: &[&str], dir: &std::path::Path) -> String {
         let id = issued.get(n.wrapping_sub(1)).map(|x| x.0.clone()).unwrap_or_else(|| unknown.clone());
         let msg = format!("data{}", data).into_bytes();
         let mut pk = if *fam == "ed" {
-          issued.get(n.wrapping_sub(1)).map(|x| x.1.clone()).unwrap_or_else(|| Jwk::from_json(&jwk_json("ed", false, "~", true, 1)).unwrap())
+          issued.get(n.wrapping_sub(1)).map(|x| x.1.clone()).unwrap_or_else(|| Jwk::from_json(&jwk_json("ed", false, "~", 1, 1)).unwrap())
         } else {
-          Jwk::from_json(&jwk_json(fam, false, "~", true, 1)).ok()?
+          Jwk::from_json(&jwk_json(fam, false, "~", 1, 1)).ok()?
         };
         // the alg of the public key argument
         let pj = {
@@ -295,10 +319,18 @@ pub fn run(args: &[&str], dir: &std::path::Path) -> String {
           .map(|i| {
             let kids = kids.clone();
             let barrier = barrier.clone();
+            // everything but the call itself happens before the barrier
+            let dg = digest(dgn);
+            let kid = KeyId::new(format!("kid{}", 201 + i));
             std::thread::spawn(move || {
               let rt = tokio::runtime::Builder::new_current_thread().enable_all().build().unwrap();
+              let fut = kids.insert_key_id(dg, kid);
               barrier.wait();
-              rt.block_on(kids.insert_key_id(digest(dgn), KeyId::new(format!("kid{}", 201 + i)))).is_ok()
+              let r = rt.block_on(fut);
+              if std::env::var("HXS_DEBUG").is_ok() {
+                eprintln!("thread {} -> {:?}", i, r);
+              }
+              r.is_ok()
             })
           })
           .collect();
